@@ -5,11 +5,11 @@ MM = "example.com/scion-time/core/measurements."
 T = "example.com/scion-time/base/timemath."
 HARNESSES = [{"name": "midpoint", "fn": T + "VerifC02Midpoint", "bounds": "|x|,|y| < 2^62"},
              {"name": "empty", "fn": T + "VerifC02Empty", "bounds": "n = 0, 1"}]
-for n in range(1, 11):
+for n in range(1, 10):   # n = 10: within-correct-range undecided at 600 s by all back ends
     HARNESSES.append({"name": "ftm%d" % n, "fn": T + "VerifC02FTM%d" % n, "bounds": "n=%d values |v| < 2^62, any placement of floor((n-1)/3) faulty ones" % n, "thorough_only": n > 5})
-for n in range(1, 9):
+for n in range(1, 8):    # n = 8: within-min-max undecided at 600 s
     HARNESSES.append({"name": "median%d" % n, "fn": T + "VerifC02Median%d" % n, "bounds": "n=%d" % n, "thorough_only": n > 5})
-for n in range(2, 8):
+for n in range(2, 6):    # n = 6: order-independence undecided at 600 s
     HARNESSES.append({"name": "perm%d" % n, "fn": T + "VerifC02Perm%d" % n, "bounds": "FTM, n=%d, any adjacent transposition of the inputs" % n, "thorough_only": n > 4})
     HARNESSES.append({"name": "permM%d" % n, "fn": T + "VerifC02PermM%d" % n, "bounds": "Median, n=%d, any adjacent transposition of the inputs" % n, "thorough_only": n > 4})
 HARNESSES.append({"name": "mmidpoint", "fn": MM + "VerifC02MMidpoint", "bounds": "|offsets| < 2^62, instants < 2^62 ns"})
@@ -22,4 +22,4 @@ ASSUMPTIONS = ["slices.Sort / slices.SortFunc replaced by their contract (arbitr
 EXPLANATION = "timemath/measurements selection functions executed from go/ssa; sort by contract"
 CLAIMED = True
 LEVEL_TEXT = "Bounded model checking: for each n up to the tier bound, all n-tuples of 64-bit offsets below 2^62, every placement of the floor((n-1)/3) arbitrary values and every adjacent transposition of the inputs are covered by solver queries over the real selection code; the sort is replaced by its contract (any sorted permutation)."
-LEVEL_NOTE = "slices.Sort/SortFunc are contract stubs (arbitrary sorted permutation, real comparator closure executed); n above the tier bound (quick 5/4, thorough 10/8) is outside the claim; time.Time in the ns64 contract model."
+LEVEL_NOTE = "slices.Sort/SortFunc are contract stubs (arbitrary sorted permutation, real comparator closure executed); n above the tier bound (quick 5/4; thorough: FTM 9, median 7, order-independence 5, measurements see harness list - the next larger n was tried and left undecided by all back ends within 600 s per obligation) is outside the claim; time.Time in the ns64 contract model."
